@@ -9,7 +9,9 @@ import subprocess
 import sys
 
 ROOT = "/verif"
-ALT = {"C02-seed2": ["C05"], "C03-seed1": ["C04"], "C04-seed2": ["C03"]}
+ALT = {"C02-seed2": ["C05"], "C03-seed1": ["C04"], "C04-seed2": ["C03"], "C17-seed3": ["C19"], "C03-seed4": ["C16"]}
+# changes that stopped being property-breaking when a defect they relied on was repaired (their demo passes with the patch applied)
+SUPERSEDED = {"C18-seed3": "relied on the C06 defect repaired by a7688f8 (definite TRUE of check() on an open tree for str.prefixof); harmless on the repaired tree"}
 # seeds whose patched function was rewritten by a later fix: commit to test them on (the parent of that fix)
 PREFIX_TREE = {"C11-seed2": "385f7a1~1", "C17-seed2": "c4c1486", "C19-seed1": "1ab92f6"}
 
@@ -30,15 +32,36 @@ def run(seed, check, base=None):
         subprocess.run(["git", "-C", "/repo", "worktree", "remove", "--force", w], capture_output=True)
 
 
+def prior_rows(skip):
+    """rows of earlier runs (meta.json) for seeds not re-run now"""
+    out = []
+    for d in sorted(os.listdir(f"{ROOT}/seeded")):
+        mp = f"{ROOT}/seeded/{d}/meta.json"
+        if d in skip or not os.path.exists(mp):
+            continue
+        meta = json.load(open(mp))
+        db = meta.get("detected_by")
+        if db:
+            out.append((d, (meta.get("property") or d.split("-")[0]).upper(), dict(check=db["check"], base=db.get("base", "HEAD"), keys=db.get("violation_keys", []))))
+    return out
+
+
 def main():
     seeds = sys.argv[1:] or sorted(d for d in os.listdir(f"{ROOT}/seeded") if os.path.isdir(f"{ROOT}/seeded/{d}"))
-    rows = []
+    rows = prior_rows(set(seeds))
     for s in seeds:
         mp = f"{ROOT}/seeded/{s}/meta.json"
         meta = json.load(open(mp)) if os.path.exists(mp) else {}
         prop = (meta.get("property") or s.split("-")[0]).upper()
         results = []
         detected = None
+        if s in SUPERSEDED:
+            meta["detected_by"] = None
+            meta["note"] = SUPERSEDED[s]
+            json.dump(meta, open(mp, "w"), indent=1)
+            rows.append((s, prop, None))
+            print(s, "-> superseded:", SUPERSEDED[s], flush=True)
+            continue
         for check in [prop] + ALT.get(s, []):
             res = run(s, check, PREFIX_TREE.get(s))
             results.append(res)
@@ -54,10 +77,14 @@ def main():
         json.dump(meta, open(mp, "w"), indent=1)
         rows.append((s, prop, detected))
         print(s, "->", (detected["check"] + " " + str(detected["keys"][:1])) if detected else "NOT DETECTED " + str(results), flush=True)
+        write_results(rows)
+
+
+def write_results(rows):
     with open(f"{ROOT}/seeded/RESULTS.md", "w") as f:
         f.write("# Seeded changes and the checks that catch them\n\n(each row: `tools/try_all_seeds.py`; quick tier, scratch worktree of /repo with the patch applied)\n\n| seed | property | detected by | first violation key |\n|---|---|---|---|\n")
-        for s, prop, d in rows:
-            f.write(f"| {s} | {prop} | {d['check'] + (' (on ' + d['base'] + ')' if d['base'] != 'HEAD' else '') if d else '**not detected**'} | {d['keys'][0] if d and d['keys'] else ''} |\n")
+        for s, prop, d in sorted(rows, key=lambda x: x[0]):
+            f.write(f"| {s} | {prop} | {d['check'] + (' (on ' + d['base'] + ')' if d['base'] != 'HEAD' else '') if d else ('superseded by a fix (see meta.json)' if s in SUPERSEDED else '**not detected**')} | {d['keys'][0] if d and d['keys'] else ''} |\n")
 
 
 if __name__ == "__main__":
